@@ -72,8 +72,12 @@ def run(ctx):
     # ---------------------------------------------------------------- M
     if not os.environ.get("VERIF_SKIP_M"):             # mutation self-tests only: the model does not depend on /repo
         ctx.tlc_mc("ProvideWalk", "MCProvideWalk.tla", "MCProvideWalk.cfg" if q else "MCProvideWalkT.cfg", timeout=3600,
-                   deadlock=False, coverage=not q, allow_zero=("TVisit", "THas", "TBulk"))
-        ctx.tlc_mc("ProvideWalk", "MCProvideWalk.tla", "MCProvideWalkBloom.cfg", timeout=3600, deadlock=False)
+                   deadlock=False, coverage=not q, allow_zero=("TBulk",))
+        if not q:   # the as-built model of the open deviation must be observably different from the ideal one
+            r = ctx.tlc_mc("ProvideWalk", "MCProvideWalk.tla", "MCProvideWalkDev.cfg", timeout=1800, deadlock=False,
+                           expect_violation=True)
+            if r["violated"] != "NoDeviation":
+                ctx.broken("deviation model Dev_C13_FetcherSliceReversed is not observable: %s" % r["violated"])
     # ---------------------------------------------------------------- G
     sdir = ctx.specdir("ProvideWalk")
     rng = random.Random(ctx.seed)
